@@ -754,7 +754,11 @@ def _write_scope_layers(
         if restored_layer is not None:  # pragma: no cover - defensive restoration path
             restored_before = list(restored_layer.get("body_before", ()))
             restored_after = list(restored_layer.get("body_after", ()))
-            expr.before = restored_before or preserved_before
+            # Trivia in front of the removed `let` stays in front; the body's own
+            # leading trivia follows it.
+            expr.before = preserved_before + [
+                item for item in restored_before if item not in preserved_before
+            ]
             expr.after = restored_after + [
                 item for item in preserved_after if item not in restored_after
             ]
